@@ -12,7 +12,7 @@
                           (cv waits may also return 0: spurious wake-ups are permitted);
      far / no deadline -> still blocked when the helper acts, then returns the event result.
    A crash (SIGSEGV from an ASSERT, sanitizer report) is attributed to the round = case.  */
-#include "common.h"
+#include "sc.h"
 #include <limits.h>
 
 enum { OP_CV, OP_CV_NOTE, OP_MUWAIT, OP_MUWAIT_NOTE, OP_MUWAIT_R, OP_NOTE_WAIT, OP_NOTE_NEW, OP_COUNTER_WAIT, OP_WAITN_COUNTER, OP_WAITN_CV, OP_WAITN_5, N_OPS };
